@@ -53,4 +53,22 @@ def walkFrom : Nat → List (List (Tree α)) → List α
 /-- the iterator over a whole tree: the root is looked at first (`start_visited`), then the loop runs -/
 def walk (t : Tree α) : List α := t.label :: walkFrom (size t) [t.children]
 
+mutual
+  /-- what the harness ships: the tree restricted to the nodes of interest and their ancestors -/
+  def prune (keep : α → Bool) : Tree α → Option (Tree α)
+    | .node l cs =>
+      let cs' := pruneL keep cs
+      if keep l || !cs'.isEmpty then some (.node l cs') else none
+  def pruneL (keep : α → Bool) : List (Tree α) → List (Tree α)
+    | [] => []
+    | t :: ts =>
+      match prune keep t with
+      | some t' => t' :: pruneL keep ts
+      | none => pruneL keep ts
+end
+
+def preorderO : Option (Tree α) → List α
+  | none => []
+  | some t => preorder t
+
 end Bw.TreeWalk
